@@ -182,6 +182,9 @@ func runFBHostile(c *Ctx) {
 					if !(ff.Columns > 300 && bytes.Count(body, []byte{0xff}) > 8) {
 						line, _, _ := fbCCDecodeLine(q, body, r, 0, 0)
 						c.Emit(fmt.Sprintf("FB cdec %s %s", q, hexWire(body)), line)
+						if ok, key, det := oracleCCEdge(q, body); !ok { // no row longer than ceil(Columns/8)
+							c.Violate("fb-ccitt-edge", key, fmt.Sprintf("CCITTFax %v: %s", q, det), fmt.Sprintf("%s %s", q, hexWire(body)))
+						}
 					}
 				}
 			}
@@ -189,6 +192,9 @@ func runFBHostile(c *Ctx) {
 			cols := Pick(r, []int64{1 << 16, 1 << 20, 1<<20 + 1, 1 << 31, 1 << 62})
 			rows := Pick(r, []int64{0, 1 << 20, 1 << 40})
 			nb := 1 + r.Intn(40)
+			if cols == 1<<20 && !c.Thorough {
+				nb = 1 + r.Intn(3) // a row is 128 KiB: with the 16 MiB budget base these decode (up to 128 rows)
+			}
 			body = bytes.Repeat([]byte{0xff}, nb) // Group 4: every 1 bit is a whole white row
 			parms := pdf.Dict{"K": pdf.Integer(-1), "Columns": pdf.Integer(cols), "EndOfBlock": pdf.Boolean(false)}
 			if rows != 0 {
@@ -204,8 +210,8 @@ func runFBHostile(c *Ctx) {
 				fmt.Sprintf("%d %d", len(out)/lb, pdf.VerifCCITTBufferBytes(pdf.VerifCCITTToParams(ff))))
 			// output bound: MaxRows after the clamp times the row size
 			geo := max(1, min(1<<16, (128<<20)/max(ff.Columns, 1)))
-			if len(out) > geo*(lb+1) {
-				c.Violate("fb-hostile", "unbounded-output", fmt.Sprintf("CCITTFax Columns=%d: %d bytes exceed rows x row size = %d", ff.Columns, len(out), geo*(lb+1)), fmt.Sprintf("%d %s %s", limit, wire(dict), hexWire(body)))
+			if len(out) > geo*lb {
+				c.Violate("fb-hostile", "unbounded-output", fmt.Sprintf("CCITTFax Columns=%d: %d bytes exceed rows x row size = %d", ff.Columns, len(out), geo*lb), fmt.Sprintf("%d %s %s", limit, wire(dict), hexWire(body)))
 			}
 			report(dict, body, limit, kind, out, detail, wall)
 			c.Case("bomb:"+wire(dict)+hexWire(body), true)
